@@ -368,9 +368,15 @@ func init() {
 	reg(&Property{ID: "C16", Units: []Unit{
 		{Name: "one-option-apart", Harness: "pkg/generator:HarnessC16", Layer: "L3",
 			Desc:   "one symbolic schema (shape grammar plus anyOf/allOf of $ref'd definitions) generated twice under configurations differing in exactly one option; the emitted files are compared at declaration level (hole identifiers by their terms): --only-models = same type declarations and no functions/variables; --tags = equal after erasing struct tags; without --extra-imports = the full output minus YAML methods/imports with identical JSON methods",
-			Bounds: "options --only-models, --tags (json only), --extra-imports; shapes G(1,1); --capitalization / --struct-name-from-title / --schema-root-type (identifier renaming) are not covered here; the comparison is a concrete per-path oracle on the symbolic output (the solver contributes the path partition)",
+			Bounds: "options --only-models, --tags (json only), --extra-imports; shapes G(1,1); --capitalization / --struct-name-from-title / --schema-root-type have a unit of their own; the comparison is a concrete per-path oracle on the symbolic output (the solver contributes the path partition)",
 			Quick:  map[string]int{"GRID": 2, "GRIDMAG": 36, "NUMSHAPES": 2, "STRSHAPES": 2, "ARRSHAPES": 2, "DEFAULTS": 1},
 			Thor:   map[string]int{"GRID": 2, "GRIDMAG": 36, "NUMSHAPES": 4, "STRSHAPES": 4, "ARRSHAPES": 3, "DEFAULTS": 1, "DEPTH": 2},
+			Panic:  "inconclusive"},
+		{Name: "identifier-options-change-identifiers-only", Harness: "pkg/generator:HarnessC16Rename", Layer: "L3",
+			Desc:   "a titled root object with a string, an integer and a property x of every kind of the grammar (among them objects collecting additional properties) generated without and with --struct-name-from-title, a --schema-root-type mapping or a --capitalization list; titles and root types include identifiers the emitted methods use themselves (Plain, raw, err); both emitted programs on the SAME symbolic document: the option-run still compiles, same verdict, same marshal-back, same collected additional properties",
+			Bounds: "shapes G(1,1); 2 titles and root-type names (thorough: 4), 2 capitalization lists; quick tier: string, integer, array, object, string enum and object-with-additional-properties kinds, not nullable; behaviour compared through verdict, marshal-back and the additional-properties map (a rename-insensitive comparison of the declarations themselves is not attempted)",
+			Quick:  map[string]int{"GRID": 2, "GRIDMAG": 36, "KINDS": 16501, "ITEMKINDS": 5, "NUMSHAPES": 2, "STRSHAPES": 2, "ARRSHAPES": 2, "N": 1, "NULLABLE": 0, "TITLES": 2},
+			Thor:   map[string]int{"GRID": 2, "GRIDMAG": 36, "NUMSHAPES": 2, "STRSHAPES": 2, "ARRSHAPES": 2, "N": 1, "TITLES": 4},
 			Panic:  "inconclusive"},
 		{Name: "cli/flag-wiring", Harness: ".:HarnessCLIFlagWiring", Layer: "L3",
 			Desc:   "main.go's Run closure under all 128 combinations of --extra-imports, --only-models, --struct-name-from-title, --min-sized-ints, a --capitalization, a --tags list and a --schema-root-type mapping, times three mapping layouts (one id; two ids where the id sorting first / last carries the larger set of per-schema flags): stdout and every written file equal what the library emits for the generator.Config those flags denote (each flag reaches the field it names, for the id it names, and no other)",
